@@ -163,6 +163,37 @@ pub fn c02_too_long(out: &mut Sink) {
     );
 }
 
+/// a `RefCell` that is mutably borrowed while it is serialized: an error of kind `Other`, nothing
+/// written, never a panic (the borrow flag is run-time state the value model does not carry, so this
+/// is an oracle on the implementation only)
+pub fn c02_refcell_borrowed(out: &mut Sink) {
+    use std::cell::RefCell;
+    let cell = RefCell::new((7u32, String::from("held")));
+    let guard = cell.borrow_mut();
+    let mut sink: Vec<u8> = Vec::new();
+    let r = guarded(|| borsh::to_writer(&mut sink, &cell));
+    let case = "enc (wrap refCell (tuple u32 (str string))) <mutably borrowed>";
+    let ok = match &r {
+        Ok(Err(e)) => e.kind() == borsh::io::ErrorKind::Other && e.to_string() == "already mutably borrowed",
+        _ => false,
+    };
+    out.oracle("C02", ok && sink.is_empty(), case,
+               &format!("{:?}, {} bytes written", r.as_ref().map(|x| x.as_ref().map_err(|e| e.to_string())), sink.len()));
+    // inside a collection: the error surfaces unchanged and what was written is a prefix of the encoding
+    let v = vec![RefCell::new(1u16), RefCell::new(2u16)];
+    let g2 = v[1].borrow_mut();
+    let mut sink2: Vec<u8> = Vec::new();
+    let r2 = guarded(|| borsh::to_writer(&mut sink2, &v));
+    out.oracle("C02", matches!(&r2, Ok(Err(e)) if e.kind() == borsh::io::ErrorKind::Other) && sink2 == [2u8, 0, 0, 0, 1, 0],
+               "enc (seq vec (wrap refCell u16)) <second element mutably borrowed>",
+               &format!("{:?}, written {:?}", r2.as_ref().map(|x| x.as_ref().map_err(|e| e.to_string())), sink2));
+    drop(g2);
+    drop(guard);
+    // released: serializes as the inner value
+    let (e, _) = enc_obs(&cell);
+    out.oracle("C02", e == enc_obs(&(7u32, String::from("held"))).0, case, "after release the cell encodes unlike its value");
+}
+
 // ------------------------------------------------------------------ C03
 
 /// two representations of one logical value (same value seed, two shape seeds) encode identically;
